@@ -34,9 +34,9 @@ func c20Enumerate(tier string) []c20Case {
 	if cs, ok := c20CaseCache[tier]; ok {
 		return cs
 	}
-	maxR, maxG := 2, 3
+	maxR, maxG := 3, 4
 	if tier == "thorough" {
-		maxR, maxG = 3, 4
+		maxR, maxG = 4, 4
 	}
 	var cases []c20Case
 	for R := 1; R <= maxR; R++ {
@@ -91,7 +91,7 @@ func c20Enumerate(tier string) []c20Case {
 func init() {
 	register(&Prop{
 		ID: "C20", Level: "fault_enumeration", DesignRef: "DESIGN.md section 4 C20",
-		Rule: "enumerated: NumRuns 1..2 x NumGenerations 1..3 (quick) / 1..3 x 1..4 (thorough) x every solved pattern (per trial: solved at " +
+		Rule: "enumerated: NumRuns 1..3 x NumGenerations 1..4 (quick) / 1..4 x 1..4 (thorough) x every solved pattern (per trial: solved at " +
 			"generation g or never) x {observer, nil} x {sequential, parallel}, and on top of every pattern every single fault: evaluator " +
 			"error at every evaluated (trial, generation), cancellation from inside the evaluator at every (trial, generation), from each " +
 			"observer callback (TrialRunStarted, EpochEvaluated, TrialRunFinished) and in the middle of the epoch that follows an " +
